@@ -8,6 +8,9 @@ STR_POOL = gen.STR_POOL      # contains 'b', 'b9', 'b10', 'a', 'aa', 'a1': sort 
 INT_POOL = gen.INT_POOL      # substrings of each other
 NAN = float('nan')
 
+# float-valued labels: time stamps in ms / s with a large origin, frequencies, fractions, tiny steps
+FLOAT_POOL = [250001.0, 250002.0, 0.5, 2.5, -1.25, 1700000000.5, 1700000001.5, 1e-9, 2e-9, 100.0,
+              7.0, 250003.0]
 small = st.integers(0, 7)
 seed_list = st.lists(st.integers(0, 7), min_size=0, max_size=8)
 vform = st.sampled_from(['scalar', 'scalar', 'list', 'array', 'tuple', 'list'])
@@ -16,8 +19,8 @@ vform = st.sampled_from(['scalar', 'scalar', 'list', 'array', 'tuple', 'list'])
 @st.composite
 def descriptor_values(draw, n, kind=None):
     """n labels of one type; with duplicates in about half of the draws"""
-    kind = kind or draw(st.sampled_from(['str', 'int']))
-    pool = STR_POOL if kind == 'str' else INT_POOL
+    kind = kind or draw(st.sampled_from(['str', 'int', 'str', 'int', 'float']))
+    pool = STR_POOL if kind == 'str' else FLOAT_POOL if kind == 'float' else INT_POOL
     if draw(st.booleans()) or n == 1:
         idx = draw(st.lists(st.integers(0, len(pool) - 1), min_size=n, max_size=n, unique=True))
     else:
@@ -61,7 +64,7 @@ def family(draw):
         kind, v = draw(descriptor_values(n_cond))
         pdesc.append(dict(name=['cond', 'cat'][j], kind=kind, values=v))
     n_rkeys = draw(st.integers(0, 2))
-    rkinds = [draw(st.sampled_from(['str', 'int'])) for _ in range(n_rkeys)]
+    rkinds = [draw(st.sampled_from(['str', 'int', 'str', 'int', 'float'])) for _ in range(n_rkeys)]
     has_study = draw(st.booleans())
     n_mem = draw(st.sampled_from([1, 2, 2, 3]))
     members = [draw(member(k, n_cond, n_rkeys, rkinds, has_study)) for k in range(n_mem)]
